@@ -39,6 +39,7 @@ FEATURES.update({
     'ws-directive': "@@whitespace :: /[\\t ]+/\n@@comments :: /\\(\\*.*?\\*\\)/\n@@eol_comments :: /#[^\\n]*/\n@@namechars :: '-_'\n\nstart: 'a-b' 'c' ;\n",
     'long-choice': "start: " + ' | '.join(f"'{c * 9}'" for c in 'abcdefghij') + " ;\n",
     'long-seq': "start: " + ' '.join(f"'{c * 9}'" for c in 'abcdefghij') + " ;\n",
+    'eof-in-choices': "start: 'a' $ | 'b' $ | 'c' $ | ('d' | ';' $ | 'e') ;\n",
     'unicode': "start: 'é' 'こんにちは' ('世界' | 'w' | n) $ ;\n\nn: /\\w/ ;\n",
 })
 
@@ -202,6 +203,9 @@ ANTLR = [
     "grammar T; start: a b | c; a: 'x'; b: 'y'?; c: 'z'*;",
     "grammar T; start: x=ID y+=ID*; ID: [a-z]+;",
     "grammar T; start: ~'q' 'a'+;",
+    "grammar T; start: ~('ab'|'cd') 'x' ;",
+    "grammar T; start: ~(kw | ',') ID ; kw: 'if' | 'else' ; ID: [a-z]+ ;",
+    "grammar T; start: ('a' | 'b' 'c')+ ('d')? ('e' | 'f')* ;",
     "grammar T; fragment D: [0-9]; NUM: D+ ('.' D+)?; start: NUM;",
     "grammar T; tokens { A, B } start: A B;",
     "grammar A;\nstart : 'a' b* EOF ;\nb : ID | INT ;\nID : [a-z]+ ;\nINT : [0-9]+ ;\nWS : [ \\t\\n]+ -> skip ;\n",
@@ -220,7 +224,7 @@ def shard_antlr(m, items):
         except Exception as e:  # noqa
             m.note('antlr_translation_failed', f'{type(e).__name__}: {str(e)[:80]}')
             continue
-        check_model(m, text, model, ['a', 'a b', '1+2', '(1)', 'a=b'], source='antlr')
+        check_model(m, text, model, ['a', 'a b', '1+2', '(1)', 'a=b', 'ab x', 'cd x', 'q x', 'zz x', 'if x', ', x', 'abc', 'bcd', 'aef', 'x'], source='antlr')
 
 
 def run(rc):
